@@ -21,7 +21,7 @@ def registry : List (String × (Ctx → Run → Verdict)) :=
     ("ALL", CheckAll.check), ("C08", CheckC08.check), ("C09", CheckC09.check),
     ("C04", CheckSimple.c04), ("C12", CheckSimple.c12), ("C13", CheckSimple.c13), ("C14", CheckSimple.c14),
     ("C15", CheckSimple.c15), ("C02", CheckC02.check),
-    ("C05", CheckSimple.c05), ("C06", CheckSimple.c06), ("C16", CheckSimple.c16) ]
+    ("C05", CheckSimple.c05), ("C06", CheckSimple.c06), ("C16", CheckSimple.c16), ("C07", CheckSimple.c07) ]
 
 def decodeCase (s : Sexp) : Except String (Ctx × List Run) := do
   let fs ← match s with
